@@ -4,6 +4,7 @@
  *                 u32 fail_at, u32 nops, (u32 op, u32 arg)[nops], u32 alen, u8 archive[alen]
  *   kind:   0 FILE on a seekable file   1 FILE on a pipe(2) fed by a writer thread
  *           2 callbacks with skip       3 callbacks without skip
+ *           4 lha_input_stream_from(path): the library opens and owns the FILE itself
  *   policy: 0 PLAIN 1 END_OF_DIR 2 END_OF_FILE 3 leave default
  *   flags:  1 = print full data of reads (else only length+crc when > 512 bytes)
  *           2 = extraction allowed with header paths (filename NULL); otherwise EXTRACT always uses a harness-chosen name
@@ -222,12 +223,12 @@ int main(int argc, char **argv)
 		memset(&src, 0, sizeof src);
 		src.p = arc; src.len = alen; src.budget = budget; src.shortreads = (flags & 4) != 0;
 
-		if (kind == 0) {
+		if (kind == 0 || kind == 4) {
 			snprintf(arcpath, sizeof arcpath, "%s/arc_%u.bin", workdir, id);
 			fp = fopen(arcpath, "wb"); if (!fp) return 2;
 			if (alen && fwrite(arc, 1, alen, fp) != alen) return 2;
-			fclose(fp);
-			fp = fopen(arcpath, "rb"); if (!fp) return 2;
+			fclose(fp); fp = NULL;
+			if (kind == 0) { fp = fopen(arcpath, "rb"); if (!fp) return 2; }
 			fds_before = count_fds();
 		} else if (kind == 1) {
 			if (pipe(pfd) != 0) return 2;
@@ -248,6 +249,7 @@ int main(int argc, char **argv)
 
 		ENTER();
 		if (kind <= 1) stream = lha_input_stream_from_FILE(fp);
+		else if (kind == 4) stream = lha_input_stream_from(arcpath);
 		else stream = lha_input_stream_new(kind == 2 ? &type_skip : &type_noskip, &src);
 		LEAVE();
 		if (!stream) { fprintf(out, "STREAM NULL\n"); goto finish; }
@@ -323,7 +325,7 @@ finish:
 		fds_after = count_fds();
 		if (fp) fclose(fp);
 		if (have_thread) pthread_join(th, NULL);
-		if (kind == 0) unlink(arcpath);
+		if (kind == 0 || kind == 4) unlink(arcpath);
 		fprintf(out, "END fds_before=%d fds_after=%d pos=%zu reads=%lu skips=%lu bytes=%lu\n", fds_before, fds_after, src.pos, src.reads,
 		        src.skips, src.bytes);
 		fflush(out);
